@@ -176,11 +176,23 @@ def coq_op(op, enc):
         return "SSnapshot %d" % op[1]
     if n == "load":
         return "SLoad %d" % op[1]
+    if n == "alloc":
+        return "SAlloc"
+    if n == "settle":
+        return "SSettle %d" % {"commit": 0, "lose": 1, "lose_inside": 2, "lose_boundary": 3}[op[1]]
+    if n in ("apply_next", "catch_up"):
+        # contents "c<pos>" of the entries this op may apply are registered by coq_script
+        return "SApplyNext %s %s" % (cstr(op[1]), "true" if n == "catch_up" else "false")
+    if n == "log":
+        return "SLog"
     raise ValueError("unknown op " + n)
 
 
 def coq_script(ops):
     enc = Enc()
+    # the harness publishes "c<pos>" for the pos-th committed entry: at most one entry per alloc
+    for i in range(sum(1 for o in ops if o[0] == "alloc")):
+        enc.content("c%d" % i)
     body = clist([coq_op(o, enc) for o in ops])
     return "script %s %s" % (enc.table(), body), enc
 
@@ -287,6 +299,13 @@ def canon_model(out, enc):
         return list(_key(out[1]))
     if tag == "OValid":
         return _bool(out[1])
+    if tag == "OSettle":
+        r = _opt(out[1])
+        return "none" if r is None else ("committed" if r == "true" else "lost")
+    if tag == "OCount":
+        return out[1]
+    if tag == "OLog":
+        return [[i, _opt(m)] for i, m in out[1]]
     if tag == "OSnap":
         return {"config_keys": sorted(_s(k) for k in out[1]), "seq": [["SEQ_CONFIG", out[2]]]}
     raise ValueError("unknown model output %r" % (tag,))
@@ -314,6 +333,8 @@ def canon_impl(op, o):
         return {"version": r["version"], "listener": r["listener"], "time": [vs for _, vs in r["time"]],
                 "senders": r["senders"]}
     if n == "valid":
+        return r
+    if n == "alloc":
         return r
     if n in ("node", "restart", "load", "set_last_id"):
         return "ok" if r == "ok" else r
